@@ -1,6 +1,7 @@
 import TantivyModel.Proofs.TopNHeap
 import TantivyModel.Proofs.Wand
 import TantivyModel.Proofs.PruneEarly
+import TantivyModel.Proofs.WandMachine
 import TantivyModel.Proofs.Bm25Q
 /-!
 # C06 — Top-K collection returns exactly the best K, with deterministic ties
@@ -235,6 +236,24 @@ theorem C06_wand_block_sound (θ : Nat) (pre : List Wand.BlockView) (suffix : Li
     Wand.totalScore (pre.map (·.t) ++ suffix) doc ≤ θ :=
   Wand.blockRule_sound θ pre suffix doc hub hin hsuf hsum
 
+/-- The generic document-at-a-time pruning machine over a union of term scorers: ANY run that
+(a) moves a scorer forward only past documents whose total score is not above the current
+threshold, (b) scores only a document that is not after any remaining posting (so every scorer
+containing it is positioned on it) and (c) stops only when every remaining document is dead,
+makes exactly the callback calls of the exhaustive loop and ends in the same state — for every
+callback whose thresholds never decrease. `block_wand`'s moves are of kind (a) by
+`C06_wand_pivot_sound` / `C06_wand_block_sound`, its scoring step is of kind (b) after
+`align_scorers` succeeded, its exit is (c) by the `none` case of the pivot rule. -/
+theorem C06_wand_machine_sound {σ : Type} (cb : σ → Nat → Nat → σ × Nat) (R : σ → Nat → Prop)
+    (hcb : Wand.MonoCb cb R) (B : Nat) (acts : List Wand.Action) (ps : List Wand.Postings)
+    (s : σ) (θ : Nat) (hR : R s θ) (hasc : ∀ p, p ∈ ps → Wand.Asc p)
+    (hb : ∀ p, p ∈ ps → ∀ x, x ∈ p → x.1 < B)
+    (hv : Wand.ValidRun cb B acts ps 0 (s, θ)) :
+    Wand.runMachine cb acts ps (s, θ) = Wand.exhRange cb (Wand.unionTotal ps) 0 B (s, θ) := by
+  have := Wand.runMachine_eq_exhaustive hcb B acts ps 0 s θ hR (Nat.zero_le _) hasc
+    (fun p hp x hx => ⟨Nat.zero_le _, hb p hp x hx⟩) hv
+  simpa using this
+
 /-
 NOT YET PROVED (stated): `C06_wand_union_skipsBelow`, `C06_wand_intersection_skipsBelow` — the
 complete `block_wand` loop (block-max refinement of the pivot, `block_max_was_too_low_advance_one_scorer`,
@@ -404,6 +423,42 @@ example : Wand.ubBlock gtNat exBlocks := by
 /-- callback: remember the calls, raise the threshold to the offered score -/
 example : Wand.wandSingle gtNat (fun (s : List Nat) d sc => (s ++ [d], sc)) ([], 4) exBlocks
     = ([0, 3], 9) := by decide
+/-- a callback that records the calls and raises the threshold to the offered score is monotone -/
+theorem recordCb_mono : Wand.MonoCb (fun (s : List Nat) d sc => (s ++ [d], sc)) (fun _ _ => True) where
+  step _ _ _ _ _ h := ⟨trivial, Nat.le_of_lt h⟩
+/-- two scorers; with threshold 4 document 1 (total 3) is dead: the first scorer may be moved
+past it; then document 2 (3 + 4 = 7) is scored by both, document 5 (total 2 < 7) is dead -/
+def exPs : List Wand.Postings := [[(1, 3), (2, 3)], [(2, 4), (5, 2)]]
+example : Wand.ValidRun (fun (s : List Nat) d sc => (s ++ [d], sc)) 6 [.seek 0 2, .eval 2] exPs 0 ([], 4) := by
+  simp only [Wand.ValidRun, exPs]
+  refine ⟨?_, by decide, by decide, ?_, ?_⟩
+  · intro p hp x hx hlt
+    simp at hp; subst hp
+    simp at hx
+    rcases hx with rfl | rfl
+    · decide
+    · simp at hlt
+  · intro p hp x hx
+    simp [Wand.modifyAt, Wand.seekP] at hp
+    rcases hp with rfl | rfl <;> simp at hx <;> rcases hx with rfl | rfl <;> decide
+  · intro d
+    have h2 : Wand.unionTotal (Wand.modifyAt (fun x => Wand.seekP x 2) [[(1, 3), (2, 3)], [(2, 4), (5, 2)]] 0) 2 = 7 := by decide
+    simp only [h2]
+    simp only [show (4 : Nat) < 7 from by decide, if_true]
+    show Wand.unionTotal [[], [(5, 2)]] d ≤ 7
+    by_cases hd : d = 5
+    · subst hd; decide
+    · rw [Wand.unionTotal_eq_zero]
+      · exact Nat.zero_le _
+      · intro p hp x hx
+        simp only [mem_cons, not_mem_nil, or_false] at hp
+        rcases hp with rfl | rfl
+        · cases hx
+        · simp only [mem_cons, not_mem_nil, or_false] at hx
+          subst hx
+          exact fun h => hd h.symm
+example : Wand.runMachine (fun (s : List Nat) d sc => (s ++ [d], sc)) [.seek 0 2, .eval 2] exPs ([], 4)
+    = Wand.exhRange (fun (s : List Nat) d sc => (s ++ [d], sc)) (Wand.unionTotal exPs) 0 6 ([], 4) := by decide
 def exTerms : List Wand.TermList := [⟨[(2, 3), (9, 1)], 3⟩, ⟨[(5, 4)], 4⟩, ⟨[(5, 2), (6, 2)], 2⟩]
 example : Wand.findPivot 5 exTerms 0 = some 5 ∧ Wand.totalScore exTerms 2 = 3 ∧ Wand.totalScore exTerms 5 = 6 := by
   decide
